@@ -64,6 +64,11 @@ func Use(t *d.T) {
 
 func take(int, d.T) {}
 
+var (
+	count int
+	grouped d.T // L-GROUP
+)
+
 var last d.T // L-LAST`
 
 type codeLine struct {
@@ -76,6 +81,7 @@ var allCodeLines = []codeLine{
 	{"TONL01", "L-TONL01"}, {"TONL02", "L-TONL02"}, {"TONL03", "L-TONL03"},
 	{"PKGO01", "L-PKGO01"}, {"PKGO02", "L-PKGO02"}, {"PKGO03", "L-PKGO03"},
 	{"CTOR01", "L-CONT"}, // on a continuation line of a multi-line call
+	{"CTOR03", "L-GROUP"}, // inside a var ( ... ) group: the diagnostic sits on the variable's own line
 	{"CTOR03", "L-LAST"}, // on the last line of the file (no final newline)
 }
 
